@@ -13,7 +13,7 @@ import os
 import subprocess
 import sys
 
-VERIF = os.environ.get("VERIF_ROOT", "/verif")
+VERIF = os.environ.get("VERIF_ROOT") or os.path.dirname(os.path.dirname(os.path.abspath(__file__)))
 REPO = os.environ.get("REPO", "/repo")
 BUILD = os.environ.get("VERIF_BUILD", os.path.join(VERIF, ".build"))
 HARNESS = os.path.join(VERIF, "harness")
